@@ -153,6 +153,9 @@ def build_wall_case(c):
                 del sp2["kind"]
             spaces.append(sp2)
         walls = sides + [slab, roof]
+        if c.get("over"):
+            # a floor over outside air owned by the same space, beside the slab (a cantilevered part of the room)
+            walls.insert(4, wall("Overhang", "EXTERIOR", "REF", s1, 180.0, [4.0, 0.0, z], [[0.0, 0.0], [2.0, 0.0], [2.0, -3.0], [0.0, -3.0]]))
         # keep the net height of the wall cases at storey - 0.2 (roof REF): the buried roof case has its own stack
     else:
         # the exterior wall and exterior floor of S1
